@@ -19,10 +19,17 @@ package mapping
 //@   ensures  implies(result != nil, result == errNumberRange)
 //@   modifies nothing
 
+// every numeric kind converts by its own value (unsigned 64-bit values above the signed range included)
 //@ func toFloat64
-//@   trusted
+//@   property C08
 //@   pure
 //@   float ieee
+//@   overflow checked
+//@   results f, ok
+//@   ensures implies(typeIs(v, int), ok && f == float64(v.(int))) && implies(typeIs(v, int8), ok && f == float64(v.(int8))) && implies(typeIs(v, int16), ok && f == float64(v.(int16)))
+//@   ensures implies(typeIs(v, int32), ok && f == float64(v.(int32))) && implies(typeIs(v, int64), ok && f == float64(v.(int64)))
+//@   ensures implies(typeIs(v, uint), ok && f == float64(v.(uint))) && implies(typeIs(v, uint8), ok && f == float64(v.(uint8))) && implies(typeIs(v, uint16), ok && f == float64(v.(uint16)))
+//@   ensures implies(typeIs(v, uint32), ok && f == float64(v.(uint32))) && implies(typeIs(v, uint64), ok && f == float64(v.(uint64)))
 //@   modifies nothing
 
 //@ func validateValueRange
